@@ -51,7 +51,9 @@ Record cfg := mkCfg {
   c_padlen : Z;     (* int(padding / 0.2 * 1e3)                [m] *)
   c_pad : Q;        (* Span.padding *)
   c_cin : Q; c_cout : Q;   (* Span.con_in / con_out defaults *)
-  c_eol : Q         (* Span.EOL *)
+  c_eol : Q;        (* Span.EOL *)
+  c_rg : string -> Q  (* per RamanFiber uid: the gain the FIRST estimate_raman_gain call returns for it (rounded to 2
+                         decimals by that call); an input, the Raman solver is not modelled *)
 }.
 Definition c_min (c : cfg) : Z := Z.max (c_padlen c) 50000.
 Definition c_target (c : cfg) : Z := Z.max (c_min c) (Z.min (c_max c) 90000).
@@ -218,16 +220,19 @@ Definition bump (e : elem) (d : Q) : elem :=
   | Fib f => Fib (mkFib (f_name f) (f_raman f) (f_len f) (f_lc f) (f_cin f) (f_cout f) (f_att f + d)%Q (f_lumped f))
   | _ => e
   end.
-(* the fibre whose successor is not a Fused is the last element of its run; span_loss of that fibre = loss of
-   the run minus the Raman gain of the other fibres of the run, which cannot be estimated without an input
-   power (TypeError in dbm2watt(None)) *)
+(* Raman gain of the fibres of a span as the first estimate returns it *)
+Definition raman_first (rg : string -> Q) (r : list elem) : Q :=
+  qsum (map (fun e => match e with Fib f => if f_raman f then rg (f_name f) else 0%Q | _ => 0%Q end) r).
+(* span_loss of a span during add_fiber_padding: losses minus the estimated Raman gains (estimated at the reference
+   power since gnpy fix 36fd5b85; before, a Raman fibre in such a span raised TypeError: finding F15) *)
+Definition span_sl (c : cfg) (r : list elem) : Q := (run_loss r - raman_first (c_rg c) r)%Q.
+(* the fibre whose successor is not a Fused is the last element of its run; a Raman last fibre is skipped *)
 Definition pad_run (c : cfg) (r : list elem) : res (list elem) :=
   match last r dflt with
   | Fib f =>
       if f_raman f then Ok r
-      else if has_raman r then Err "TypeError:estimate_raman_gain without input power"
       else
-        let sl := run_loss r in
+        let sl := span_sl c r in
         if Qltb sl (c_pad c) then
           match r with
           | Fib g :: t => Ok (bump (Fib g) (c_pad c - sl) :: t)
